@@ -168,7 +168,13 @@ def run(ctx, chk, tier):
         want_key = "call($sampler,($%s,))" % hold2["obj"].key if hold2 else ""
         if len(rets) == 1 and isinstance(rets[0].value, App) and rets[0].value.fn == "call" and rets[0].value.args[0] == smp and not rets[0].value.kw \
                 and len(rets[0].value.args[1].items) == 1:
-            chk.hold("R14.4", short, "custom sampler: result of sampler(self) returned unchanged")
+            touched = [e for e in rets[0].events if e["kind"] == "foreign_attr_store"]
+            if touched:
+                chk.violation("R14.4", q, short + ":custom-sampler-modified", "the sampler's result is modified before it is returned: .%s re-bound" % touched[0]["attr"],
+                              "sampler(self) used exactly as the sampler produced it (rows of bootstrap_metric are the metric of THAT sample)",
+                              "%s line %s" % (ctx.where(q), getattr(touched[0].get("node"), "lineno", "?")))
+            else:
+                chk.hold("R14.4", short, "custom sampler: result of sampler(self) returned unchanged")
         else:
             chk.violation("R14.4", q, short + ":custom-sampler", [show(o.value, 100) for o in rets] or [show(o.value, 100) for o in outs], "sampler(self) returned unchanged", ctx.where(q))
     # ---------------- R14.5 entropy sources
